@@ -163,6 +163,8 @@ pub struct SignerState {
 pub struct PlanInfo {
     pub plan: Plan<DefiniteDescriptorKey>,
     pub mall: bool,
+    /// the PSBT input of this epoch was filled in with `Plan::update_psbt_input` (not the descriptor updater)
+    pub used_for_update: bool,
 }
 
 pub struct CoordState {
@@ -950,7 +952,7 @@ impl<'a> World<'a> {
                     if let Some(r) = plan.relative_timelock {
                         seqs[i] = r.to_sequence().0;
                     }
-                    plans[i] = Some(PlanInfo { plan, mall });
+                    plans[i] = Some(PlanInfo { plan, mall, used_for_update: false });
                 } else {
                     self.stats.probe("plan_refused");
                 }
@@ -1062,6 +1064,11 @@ impl<'a> World<'a> {
             }
             let use_plan_update = plans[i].is_some() && self.dec.choose(&format!("upd{}:{}", ep, i), 3) == 1;
             monitors::update_with_monitors(self, &mut psbt, i, if use_plan_update { plans[i].as_ref().map(|p| &p.plan) } else { None });
+            if use_plan_update {
+                if let Some(p) = plans[i].as_mut() {
+                    p.used_for_update = true;
+                }
+            }
         }
         // an updater that leaves the optional key-origin fields out for one input (BIP174 / BIP371
         // allow that): nothing a finalizer may depend on for *another* input
